@@ -6,13 +6,25 @@
 (* right before (UNPREPARED -> PREPARE -> the same request again).             *)
 EXTENDS Integers, Sequences, TLC, Json
 Ops == {"query", "execute", "batch_prepared", "batch_mixed"}
-Steps == {[op |-> o, explicit |-> e, ts |-> t, evict |-> v] : o \in Ops, e \in {0, 1}, t \in {-5, 2000000000}, v \in {0, 1}}
+\* a step without an explicit timestamp is written with ts = 0
+Mk(ops) == {s \in [op : ops, explicit : {0, 1}, ts : {-5, 0, 2000000000}, evict : {0, 1}] : (s.explicit = 0) <=> (s.ts = 0)}
+Steps == Mk(Ops)
+\* more paths: an unprepared statement WITHOUT values (sent as QUERY, never prepared) unpaged / one page / through the paging
+\* iterator; an unprepared statement with values through the iterator; a prepared statement by single page / through the
+\* iterator; a prepared statement the node marked as LWT; a batch with an explicit timestamp whose member statements carry
+\* explicit timestamps of their own (the batch's is the one of the request)
+NewOps == {"query_novals", "query_page", "query_iter", "query_iter_vals", "execute_page", "execute_iter", "execute_lwt", "batch_member"}
+NewSteps == {s \in Mk(NewOps) : s.op = "batch_member" => s.explicit = 1}
 Canon(s) == IF s.explicit = 0 THEN [s EXCEPT !.ts = 0] ELSE s
 VARIABLE c
 Init == \/ \E a \in Steps : \E b \in Steps : a = Canon(a) /\ b = Canon(b) /\ (a.ts # b.ts \/ a.explicit = 0) /\ c = [steps |-> <<a, b>>]
         \/ \E a \in Steps : \E b \in Steps : \E d \in Steps :
              /\ a.explicit = 0 /\ a.ts = 0 /\ b.explicit = 1 /\ b.ts = -5 /\ d.explicit = 0 /\ d.ts = 0 /\ a.evict = 0 /\ b.evict = d.evict
              /\ c = [steps |-> <<a, b, d, a>>]
+        \/ \E a \in NewSteps : \E b \in Steps \cup NewSteps :
+             /\ a = Canon(a) /\ b = Canon(b) /\ (a.ts # b.ts \/ a.explicit = 0) /\ b.evict = 0 /\ b.op \in {a.op, "execute", "query_novals"}
+             /\ \/ c = [steps |-> <<a, b>>]
+                \/ a.explicit = 0 /\ b.explicit = 0 /\ c = [steps |-> <<b, a>>]
 Next == UNCHANGED c
 Spec == Init /\ [][Next]_c
 Emit == PrintT(<<"SCRIPT", ToJson(c)>>)
